@@ -20,7 +20,8 @@ theorem trueAtom_sim (buf : Bytes) (start : Nat) (hs : start ≤ buf.size) (fuel
     simp only [Array.getD_eq_getD_getElem?] at hf hg
     by_cases hv : le32 buf start = catomTrue
     · simp [h5, hl, hv, h5i, h4i, h4, catomTrue, hg, hf]
-    · have hne : ¬ UInt64.ofNat (le32 buf start) = 1702195828 := by
+    · have hne : (UInt64.ofNat (le32 buf start) == 1702195828) = false := by
+        apply beq_false_of_ne
         intro h
         exact hv ((ofNat_eq_iff _ 1702195828 (by have := le32_lt buf start; omega) (by decide)).mp h)
       simp [h5, hl, hv, h5i, h4i, h4, hne]
@@ -41,7 +42,8 @@ theorem nullAtom_sim (buf : Bytes) (start : Nat) (hs : start ≤ buf.size) (fuel
     simp only [Array.getD_eq_getD_getElem?] at hf hg
     by_cases hv : le32 buf start = catomNull
     · simp [h5, hl, hv, h5i, h4i, h4, catomNull, hg, hf]
-    · have hne : ¬ UInt64.ofNat (le32 buf start) = 1819047278 := by
+    · have hne : (UInt64.ofNat (le32 buf start) == 1819047278) = false := by
+        apply beq_false_of_ne
         intro h
         exact hv ((ofNat_eq_iff _ 1819047278 (by have := le32_lt buf start; omega) (by decide)).mp h)
       simp [h5, hl, hv, h5i, h4i, h4, hne]
@@ -72,4 +74,134 @@ theorem falseAtom_sim (buf : Bytes) (start : Nat) (hs : start ≤ buf.size) (fue
     simp [h8, hl, h8i, h5i, h8', hg]
     rw [false_word _ _ (le64_lt buf start)]
     simp [hf]
-  · sorry
+  · have h8i : ¬ (8 : Int) ≤ ((buf.size - start : Nat) : Int) := by omega
+    by_cases h6 : buf.size - start ≥ 6
+    · have h6i : (6 : Int) ≤ ((buf.size - start : Nat) : Int) := by omega
+      have h5i : (5 : Int) < ((buf.size - start : Nat) : Int) := by omega
+      have h5' : (5 : Int) ≤ ((buf.size - start : Nat) : Int) := by omega
+      have hf := follow_tbl (buf.getD (start + 5) 0)
+      have hg := getD_suffix buf start 5 (by omega)
+      simp only [Array.getD_eq_getD_getElem?] at hf hg
+      have hx : (buf.extract start buf.size).extract 0 5 = buf.extract start (start + 5) := by
+        rw [Array.extract_extract, Nat.add_zero, Nat.min_eq_left (by omega)]
+      have hlit : "false".toUTF8.data = #[102, 97, 108, 115, 101] := by decide
+      rw [hlit]
+      cases hE : (buf.extract start (start + 5) == #[102, 97, 108, 115, 101]) <;>
+        simp [h8, h8i, h6, h6i, h5i, h5', hg, hf, hx, hE]
+    · have h6i : ¬ (6 : Int) ≤ ((buf.size - start : Nat) : Int) := by omega
+      simp [h8, h8i, h6, h6i]
+
+/-! ## parseNumber: the pieces of the syntax tree -/
+
+def loopBody : List Stmt :=
+  match goparseNumber.body with
+  | _ :: _ :: _ :: _ :: .rangeIB _ _ _ b :: _ => b
+  | _ => []
+def tailStmts : List Stmt := goparseNumber.body.drop 5
+
+theorem body_eq : goparseNumber.body =
+    [.assign "id" (.u64 0), .assign "val" (.u64 0), .assign "pos" (.int 0), .assign "found" (.conv .u8 (.u8 0)),
+     .rangeIB "i" "v" (.v "buf") loopBody] ++ tailStmts := rfl
+
+section Loop
+attribute [-simp] Env.get Env.set tblLookup
+attribute [local simp] GoRebuild.Env.get_set
+
+theorem tbl_rune (x : UInt8) : tblLookup "isNumberRune" x.toNat = some (.u8 (runeU8 x)) := rfl
+
+theorem drop_facts (b : Bytes) (k : Nat) (x : UInt8) (xs : List UInt8) (hd : b.toList.drop k = x :: xs) :
+    k + 1 + xs.length = b.size ∧ b.toList.drop (k + 1) = xs ∧ (xs ≠ [] → b.getD (k + 1) 0 = xs.headD 0) := by
+  have hl := congrArg List.length hd
+  simp only [List.length_drop, Array.length_toList, List.length_cons] at hl
+  have h2 : b.toList.drop (k + 1) = xs := by
+    have := congrArg (List.drop 1) hd
+    simpa [List.drop_drop, Nat.add_comm] using this
+  refine ⟨by omega, h2, ?_⟩
+  intro hne
+  rw [← h2]
+  simp [List.headD_eq_head?_getD, List.head?_drop]
+
+/-- one iteration of the scan loop -/
+theorem loop_step (b : Bytes) (fuel : Nat) (s : GoSem.St) (fu : UInt8) (k : Nat) (x : UInt8) (xs : List UInt8)
+    (hd : b.toList.drop k = x :: xs)
+    (hb : s.env.get "buf" = some (.bytes b)) (hf : s.env.get "found" = some (.u8 fu)) :
+    let e1 := ((s.env.set "i" (.int k)).set "v" (.u8 x)).set "t" (.u8 (runeU8 x))
+    exec goFuns fuel loopBody ⟨(s.env.set "i" (.int k)).set "v" (.u8 x), s.tape⟩ =
+      if numRune x = 0 then .ret ⟨e1, s.tape⟩ [.u64 0, .u64 0]
+      else if numRune x = 8 then .brk ⟨e1, s.tape⟩
+      else if numRune x &&& 32 > 0 ∧ (xs = [] ∨ numRune (xs.headD 0) &&& 16 = 0) then .ret ⟨e1, s.tape⟩ [.u64 0, .u64 0]
+      else .normal ⟨(e1.set "found" (.u8 (fu ||| runeU8 x))).set "pos" (.int ((k : Int) + 1)), s.tape⟩ := by
+  intro e1
+  obtain ⟨hlen, hdr, hhd⟩ := drop_facts b k x xs hd
+  have h0 := runeU8_zero x
+  have h8 := runeU8_eov x
+  have hm := runeU8_must x
+  by_cases c0 : numRune x = 0
+  · have e0 := h0.mpr c0
+    simp [loopBody, goparseNumber, c0, hb, hf, e1, tbl_rune, e0]
+  · have b0 : (runeU8 x == 0) = false := beq_false_of_ne (fun h => c0 (h0.mp h))
+    by_cases c8 : numRune x = 8
+    · have e8 := h8.mpr c8
+      simp [loopBody, goparseNumber, c0, c8, hb, hf, e1, tbl_rune, e8]
+    · have b8 : (runeU8 x == 8) = false := beq_false_of_ne (fun h => c8 (h8.mp h))
+      by_cases cm : numRune x &&& 32 > 0
+      · have bm : decide (0 < runeU8 x &&& 32) = true := decide_eq_true (hm.mpr cm)
+        by_cases cl : xs = []
+        · have hlt : (b.size : Int) < (k : Int) + 2 := by subst cl; simp at hlen; omega
+          simp [loopBody, goparseNumber, c0, c8, hb, hf, e1, tbl_rune, b0, b8, bm, cm, cl, hlt]
+        · have hlt : ¬ (b.size : Int) < (k : Int) + 2 := by
+            have : xs.length ≠ 0 := fun h => cl (List.length_eq_zero_iff.mp h)
+            omega
+          have hidx : (k : Int) + 1 < b.size := by omega
+          have hnn : (0 : Int) ≤ (k : Int) + 1 := by omega
+          have htn : ((k : Int) + 1).toNat = k + 1 := by omega
+          have hw := hhd cl
+          generalize xs.headD 0 = w at *
+          have hdg := runeU8_digit w
+          by_cases cd : numRune w &&& 16 = 0
+          · have ed := hdg.mpr cd
+            simp [loopBody, goparseNumber, c0, c8, hb, hf, e1, tbl_rune, b0, b8, bm, cm, cl, hlt, hidx, hnn, htn, hw, ed, cd]
+          · have bd : (runeU8 w &&& 16 == 0) = false := beq_false_of_ne (fun h => cd (hdg.mp h))
+            simp [loopBody, goparseNumber, c0, c8, hb, hf, e1, tbl_rune, b0, b8, bm, cm, cl, hlt, hidx, hnn, htn, hw, bd, cd]
+      · have bm : decide (0 < runeU8 x &&& 32) = false := decide_eq_false (fun h => cm (hm.mp h))
+        simp [loopBody, goparseNumber, c0, c8, hb, hf, e1, tbl_rune, b0, b8, bm, cm]
+
+/-- the `range` loop is the model's scan (`NumberProofs.scan`, to which `numScan` is equal): an abort is `return 0, 0`,
+    otherwise the loop ends normally with `pos`, `found` as the model computes them; `pos ≤ len(buf)` -/
+theorem scan_loop (b : Bytes) (tape : Array UInt64) (fuel : Nat) :
+    ∀ (xs : List UInt8) (k : Nat) (s : GoSem.St) (fu : UInt8),
+    b.toList.drop k = xs → k ≤ b.size → s.tape = tape → s.env.get "buf" = some (.bytes b) →
+    s.env.get "found" = some (.u8 fu) → s.env.get "pos" = some (.int k) →
+    match NumberProofs.scan xs k fu.toNat with
+    | none => ∃ s', execRangeI goFuns fuel "i" "v" k xs loopBody s = .ret s' [.u64 0, .u64 0] ∧ s'.tape = tape
+    | some (p, f) => ∃ s' fu', execRangeI goFuns fuel "i" "v" k xs loopBody s = .normal s' ∧ s'.tape = tape ∧
+        s'.env.get "buf" = some (.bytes b) ∧ s'.env.get "found" = some (.u8 fu') ∧ fu'.toNat = f ∧
+        s'.env.get "pos" = some (.int p) ∧ p ≤ b.size := by
+  intro xs
+  induction xs with
+  | nil =>
+    intro k s fu hd hk ht hb hf hp
+    rw [NumberProofs.scan, execRangeI]
+    exact ⟨s, fu, rfl, ht, hb, hf, rfl, hp, hk⟩
+  | cons x xs ih =>
+    intro k s fu hd hk ht hb hf hp
+    obtain ⟨hlen, hdr, hhd⟩ := drop_facts b k x xs hd
+    have hstep := loop_step b fuel s fu k x xs hd hb hf
+    simp only [] at hstep
+    rw [NumberProofs.scan, execRangeI, hstep]
+    by_cases c0 : numRune x = 0
+    · simp only [c0, if_true]
+      exact ⟨_, rfl, ht⟩
+    · by_cases c8 : numRune x = 8
+      · simp only [c0, c8, if_true, if_false]
+        refine ⟨_, fu, rfl, ht, ?_, ?_, rfl, ?_, hk⟩ <;> simp [hb, hf, hp]
+      · by_cases cm : numRune x &&& 32 > 0 ∧ (xs = [] ∨ numRune (xs.headD 0) &&& 16 = 0)
+        · simp only [c0, c8, cm, if_true, if_false]
+          exact ⟨_, rfl, ht⟩
+        · simp only [c0, c8, cm, if_true, if_false]
+          have := ih (k + 1) ⟨((((s.env.set "i" (.int k)).set "v" (.u8 x)).set "t" (.u8 (runeU8 x))).set "found"
+              (.u8 (fu ||| runeU8 x))).set "pos" (.int ((k : Int) + 1)), s.tape⟩ (fu ||| runeU8 x) hdr (by omega) ht
+              (by simp [hb]) (by simp) (by simp)
+          rw [UInt8.toNat_or, runeU8_toNat] at this
+          exact this
+end Loop
